@@ -176,9 +176,14 @@ Lemma sel_vars_go l :
      match l with [] => [] | x :: r => (sel_vars x ++ go r)%list end) l = flat_map sel_vars l.
 Proof. induction l; simpl; [reflexivity | rewrite IHl; reflexivity]. Qed.
 
-Lemma thread_handed {X Y} (g : tstate -> X -> option (tstate * Y)) (vars : Y -> list string) :
-  (forall s x s' y, g s x = Some (s', y) -> handed (snd s) (snd s') (vars y)) ->
-  forall l s s' ys, thread g s l = Some (s', ys) -> handed (snd s) (snd s') (flat_map vars ys).
+Lemma flat_map_map {X Y Z} (f : X -> Y) (g : Y -> list Z) l :
+  flat_map g (map f l) = flat_map (fun x => g (f x)) l.
+Proof. induction l; simpl; [reflexivity | rewrite IHl; reflexivity]. Qed.
+
+
+Lemma thread_handed {X Y} (g : list string -> X -> option (list string * Y)) (vars : Y -> list string) :
+  (forall s x s' y, g s x = Some (s', y) -> handed s s' (vars y)) ->
+  forall l s s' ys, thread g s l = Some (s', ys) -> handed s s' (flat_map vars ys).
 Proof.
   intros Hg. induction l as [|x r IH]; simpl; intros s s' ys H.
   - inversion H; subst. apply handed_nil.
@@ -187,58 +192,116 @@ Proof.
     inversion H; subst. simpl. eapply handed_app; [eapply Hg; eassumption | eapply IH; eassumption].
 Qed.
 
-Lemma flat_map_map {X Y Z} (f : X -> Y) (g : Y -> list Z) l :
-  flat_map g (map f l) = flat_map (fun x => g (f x)) l.
-Proof. induction l; simpl; [reflexivity | rewrite IHl; reflexivity]. Qed.
+Lemma thread_nil_inv {St X Y} (g : St -> X -> option (St * Y)) s s' ys :
+  thread g s [] = Some (s', ys) -> ys = [].
+Proof. simpl. intro H. injection H as _ <-. reflexivity. Qed.
+
+Lemma thread_cons {St X Y} (g : St -> X -> option (St * Y)) s x r :
+  thread g s (x :: r) = match g s x with
+                        | Some (s1, y) => match thread g s1 r with
+                                          | Some (s2, ys) => Some (s2, y :: ys)
+                                          | None => None end
+                        | None => None end.
+Proof. reflexivity. Qed.
+
+(* one step of to_ast, named *)
+Definition frag_step (f idx : nat) (s' : list string) (fr : string * list node)
+  : option (list string * (string * list (sel string * node))) :=
+  match thread (to_ast f idx) s' (snd fr) with
+  | Some (s'', cs) => Some (s'', (fst fr, cs))
+  | None => None end.
+
+Definition node_sl (d : ndata) (subs : list node) (frs : list (string * list node)) (fmt : list fvar)
+  (rs : list (sel string * node)) (frs' : list (string * list (sel string * node))) : sel string :=
+  SF (eff_alias (d_alias d)) (d_name d)
+     (map (fun fv => (v_name (fv_var fv), fv_key fv)) fmt)
+     (if is_nil subs && is_nil frs then None
+      else Some (map (fun r => fst r) rs ++
+                 map (fun fr => SI (fst fr) (map (fun r => fst r) (snd fr))) frs')%list).
+Definition node_ann (d : ndata) (fmt : list fvar)
+  (rs : list (sel string * node)) (frs' : list (string * list (sel string * node))) : node :=
+  N (set_fmt d fmt) (map (fun r => snd r) rs)
+    (map (fun fr => (fst fr, map (fun r => snd r) (snd fr))) frs').
+
+Lemma to_ast_S f idx u d subs frs :
+  to_ast (S f) idx u (N d subs frs) =
+  match collect idx u (d_vars d) with
+  | Some (used1, fmt) =>
+      match thread (to_ast f idx) used1 subs with
+      | Some (s2, rs) =>
+          match thread (frag_step f idx) s2 frs with
+          | Some (s3, frs') => Some (s3, (node_sl d subs frs fmt rs frs', node_ann d fmt rs frs'))
+          | None => None end
+      | None => None end
+  | None => None end.
+Proof. reflexivity. Qed.
+
+Lemma to_ast_N_inv f idx u d subs frs u' sl n' :
+  to_ast (S f) idx u (N d subs frs) = Some (u', (sl, n')) ->
+  exists used1 fmt s2 rs frs',
+    collect idx u (d_vars d) = Some (used1, fmt) /\
+    thread (to_ast f idx) used1 subs = Some (s2, rs) /\
+    thread (frag_step f idx) s2 frs = Some (u', frs') /\
+    sl = node_sl d subs frs fmt rs frs' /\ n' = node_ann d fmt rs frs'.
+Proof.
+  rewrite to_ast_S. intro H.
+  destruct (collect idx u (d_vars d)) as [[used1 fmt]|] eqn:Ec; [|discriminate].
+  destruct (thread (to_ast f idx) used1 subs) as [[s2 rs]|] eqn:E1; [|discriminate].
+  destruct (thread (frag_step f idx) s2 frs) as [[s3 frs']|] eqn:E2; [|discriminate].
+  injection H as <- <- <-. exists used1, fmt, s2, rs, frs'. repeat split; assumption.
+Qed.
+
+Definition rs_vars (rs : list (sel string * node)) : list string :=
+  flat_map (fun r : sel string * node => sel_vars (fst r)) rs.
+Definition frs_vars (frs' : list (string * list (sel string * node))) : list string :=
+  flat_map (fun fr : string * list (sel string * node) => rs_vars (snd fr)) frs'.
+
+Lemma sel_vars_node d subs frs fmt rs frs' :
+  (subs = [] -> rs = []) -> (frs = [] -> frs' = []) ->
+  sel_vars (node_sl d subs frs fmt rs frs') = (map fv_key fmt ++ rs_vars rs ++ frs_vars frs')%list.
+Proof.
+  intros H1 H2. unfold node_sl. simpl. rewrite map_map. simpl. f_equal.
+  destruct (is_nil subs && is_nil frs) eqn:En.
+  - apply andb_true_iff in En as [Ea Eb]. destruct subs; [|discriminate]. destruct frs; [|discriminate].
+    rewrite H1, H2 by reflexivity. reflexivity.
+  - rewrite sel_vars_go, flat_map_app, !flat_map_map. unfold rs_vars, frs_vars. f_equal.
+    apply flat_map_ext. intros [t cs]. simpl. rewrite sel_vars_go, flat_map_map. reflexivity.
+Qed.
+
+Lemma to_ast_vars f idx u d subs frs u' sl n' :
+  to_ast (S f) idx u (N d subs frs) = Some (u', (sl, n')) ->
+  exists used1 fmt s2 rs frs',
+    collect idx u (d_vars d) = Some (used1, fmt) /\
+    thread (to_ast f idx) used1 subs = Some (s2, rs) /\
+    thread (frag_step f idx) s2 frs = Some (u', frs') /\
+    sl = node_sl d subs frs fmt rs frs' /\ n' = node_ann d fmt rs frs' /\
+    sel_vars sl = (map fv_key fmt ++ rs_vars rs ++ frs_vars frs')%list.
+Proof.
+  intro H. apply to_ast_N_inv in H as [used1 [fmt [s2 [rs [frs' [Ec [E1 [E2 [-> ->]]]]]]]]].
+  exists used1, fmt, s2, rs, frs'. repeat split; try assumption.
+  apply sel_vars_node; intros ->; eapply thread_nil_inv; eassumption.
+Qed.
 
 Lemma to_ast_handed fuel : forall idx s n s' sl n',
-  to_ast fuel idx s n = Some (s', (sl, n')) -> handed (snd s) (snd s') (sel_vars sl).
+  to_ast fuel idx s n = Some (s', (sl, n')) -> handed s s' (sel_vars sl).
 Proof.
-  induction fuel as [|f IH]; intros idx s n s' sl n' H; simpl in H; [discriminate|].
-  destruct n as [d subs frs | k].
-  - destruct (collect idx (snd s) (d_vars d)) as [[used1 fmt]|] eqn:Ec; [|discriminate].
-    destruct (thread (to_ast f idx) (fst s, used1) subs) as [[s2 rs]|] eqn:E1; [|discriminate].
-    match type of H with context [thread ?g s2 frs] => set (gf := g) in H end.
-    destruct (thread gf s2 frs) as [[s3 frs']|] eqn:E2; [|discriminate].
-    inversion H; subst; clear H.
-    apply collect_handed in Ec as [Hc _].
-    assert (H1 : handed used1 (snd s2) (flat_map (fun r : sel string * node => sel_vars (fst r)) rs)).
-    { apply (thread_handed (to_ast f idx) (fun r => sel_vars (fst r))) in E1; [exact E1|].
-      intros s0 x s0' [a b] Hx. eapply IH. exact Hx. }
-    assert (H2 : handed (snd s2) (snd s')
-                  (flat_map (fun fr : string * list (sel string * node) =>
-                               flat_map (fun r => sel_vars (fst r)) (snd fr)) frs')).
-    { apply (thread_handed gf (fun fr => flat_map (fun r : sel string * node => sel_vars (fst r)) (snd fr))) in E2;
-        [exact E2|].
-      intros s0 x s0' y Hx. unfold gf in Hx.
-      destruct (thread (to_ast f idx) s0 (snd x)) as [[s4 cs]|] eqn:E3; [|discriminate].
-      inversion Hx; subst. simpl.
-      apply (thread_handed (to_ast f idx) (fun r => sel_vars (fst r))) in E3; [exact E3|].
-      intros s5 x5 s5' [a b] H5. eapply IH. exact H5. }
-    assert (Hsv : sel_vars (SF (eff_alias (d_alias d)) (d_name d)
-                     (map (fun fv => (v_name (fv_var fv), fv_key fv)) fmt)
-                     (if is_nil subs && is_nil frs then None
-                      else Some (map (fun r => fst r) rs ++
-                                 map (fun fr => SI (fst fr) (map (fun r => fst r) (snd fr))) frs')%list))
-                  = (map fv_key fmt ++ flat_map (fun r : sel string * node => sel_vars (fst r)) rs ++
-                     flat_map (fun fr : string * list (sel string * node) =>
-                                 flat_map (fun r => sel_vars (fst r)) (snd fr)) frs')%list).
-    { simpl. rewrite map_map. simpl. f_equal.
-      destruct (is_nil subs && is_nil frs) eqn:En.
-      - apply andb_true_iff in En as [Ea Eb]. destruct subs; [|discriminate]. destruct frs; [|discriminate].
-        simpl in E1. inversion E1; subst. simpl in E2. inversion E2; subst. reflexivity.
-      - rewrite sel_vars_go, flat_map_app, !flat_map_map. f_equal.
-        apply flat_map_ext. intros [t cs]. simpl. rewrite sel_vars_go, flat_map_map. reflexivity. }
-    rewrite Hsv.
-    eapply handed_app; [exact Hc|]. eapply handed_app; [exact H1 | exact H2].
-  - destruct (nth_error (fst s) k) as [[d subs frs|]|] eqn:En; try discriminate.
-    destruct (to_ast f idx s (N d subs frs)) as [[[st1 used1] [sl1 n1]]|] eqn:E; [|discriminate].
-    inversion H; subst. apply IH in E. exact E.
+  induction fuel as [|f IH]; intros idx s [d subs frs] s' sl n' H; [discriminate|].
+  apply to_ast_vars in H as [used1 [fmt [s2 [rs [frs' [Ec [E1 [E2 [-> [-> Hsv]]]]]]]]]].
+  rewrite Hsv. apply collect_handed in Ec as [Hc _].
+  eapply handed_app; [exact Hc|]. eapply handed_app.
+  - apply (thread_handed (to_ast f idx) (fun r => sel_vars (fst r))) in E1; [exact E1|].
+    intros s0 x s0' [a b] Hx. eapply IH. exact Hx.
+  - apply (thread_handed (frag_step f idx) (fun fr => rs_vars (snd fr))) in E2; [exact E2|].
+    intros s0 x s0' y Hx. unfold frag_step in Hx.
+    destruct (thread (to_ast f idx) s0 (snd x)) as [[s4 cs]|] eqn:E3; [|discriminate].
+    injection Hx as <- <-. simpl.
+    apply (thread_handed (to_ast f idx) (fun r => sel_vars (fst r))) in E3; [exact E3|].
+    intros s5 x5 s5' [a b] H5. eapply IH. exact H5.
 Qed.
 
 (* every variable name used by one top-level field's AST occurs once *)
-Theorem unique_var_names fuel idx st n s' sl n' :
-  to_ast fuel idx (st, []) n = Some (s', (sl, n')) -> NoDup (sel_vars sl).
+Theorem unique_var_names fuel idx n s' sl n' :
+  to_ast fuel idx [] n = Some (s', (sl, n')) -> NoDup (sel_vars sl).
 Proof. intro H. apply to_ast_handed in H. destruct H as [H _]. exact H. Qed.
 
 (* ------------------------------------------------------------------------------------------ *)
@@ -260,208 +323,14 @@ Proof.
   - apply HO; [apply IH|]. induction es; constructor; [apply IH | assumption].
 Qed.
 
-Lemma evals_fix ct es : forall st,
-  (fix go (l : list bexpr) (st : store) {struct l} : option (store * list node) :=
+
+Lemma evals_fix ct es :
+  (fix go (l : list bexpr) {struct l} : option (list node) :=
      match l with
-     | [] => Some (st, [])
-     | x :: r => match eval ct x st with
-                 | Some (st1, n) => match go r st1 with
-                                    | Some (st2, ns) => Some (st2, n :: ns)
-                                    | None => None end
-                 | None => None end
-     end) es st = evals ct es st.
-Proof.
-  induction es as [|x r IH]; intro st; simpl; [reflexivity|].
-  destruct (eval ct x st) as [[st1 n]|]; [|reflexivity]. rewrite IH. reflexivity.
-Qed.
-
-Lemma g_shared_fix es :
-  (fix go (l : list bexpr) : bool := match l with [] => true | x :: r => g_shared x && go r end) es
-  = forallb g_shared es.
-Proof. induction es; simpl; [reflexivity | rewrite IHes; reflexivity]. Qed.
-
-(* ------------------------------------------------------------------------------------------ *)
-(* history freedom for histories that never mutate a shared object                             *)
-(* ------------------------------------------------------------------------------------------ *)
-(* the receiver of a fresh-receiver expression evaluates to an inline object *)
-Lemma recv_fresh_inline ct e : forall st st' n,
-  recv_fresh e = true -> eval ct e st = Some (st', n) -> exists d subs frs, n = N d subs frs.
-Proof.
-  induction e using bexpr_ind'; intros st st' n Hr He; simpl in Hr; try discriminate.
-  - simpl in He. destruct (find_fm ct c f); [|discriminate].
-    destruct (fm_method f0 && args_known (fm_args f0) a); [|discriminate].
-    destruct (call_vars (fm_args f0) a); [|discriminate]. inversion He; subst. eauto.
-  - simpl in He.
-    destruct (eval ct e st) as [[st1 [d subs frs|k]]|]; try discriminate.
-    destruct (can_fields (d_kind d)); [|discriminate]. rewrite evals_fix in He.
-    destruct (evals ct es st1) as [[st2 ns]|]; [|discriminate]. inversion He; subst. eauto.
-  - simpl in He. destruct (eval ct e st) as [[st1 n1]|] eqn:E; [|discriminate].
-    destruct (IHe _ _ _ Hr E) as [d [subs [frs ->]]]. inversion He; subst. eauto.
-  - simpl in He. destruct (eval ct e st) as [[st1 n1]|] eqn:E; [|discriminate].
-    destruct (IHe _ _ _ Hr E) as [d [subs [frs ->]]].
-    destruct (can_on (d_kind d)); [|discriminate]. rewrite evals_fix in He.
-    destruct (evals ct es st1) as [[st2 ns]|]; [|discriminate]. inversion He; subst. eauto.
-Qed.
-
-Lemma evals_store_of ct es :
-  Forall (fun e => forall st st' n, g_shared e = true -> eval ct e st = Some (st', n) -> st' = st) es ->
-  forall st st' ns, forallb g_shared es = true -> evals ct es st = Some (st', ns) -> st' = st.
-Proof.
-  induction 1 as [|x r Hx Hr IH]; intros st st' ns Hg He; simpl in *.
-  - inversion He; reflexivity.
-  - apply andb_true_iff in Hg as [G1 G2].
-    destruct (eval ct x st) as [[st1 n]|] eqn:E; [|discriminate].
-    destruct (evals ct r st1) as [[st2 ns2]|] eqn:E2; [|discriminate].
-    inversion He; subst. apply Hx in E; [|exact G1]. subst. eapply IH; eassumption.
-Qed.
-
-Lemma eval_safe_store ct e : forall st st' n,
-  g_shared e = true -> eval ct e st = Some (st', n) -> st' = st.
-Proof.
-  induction e using bexpr_ind'; intros st st' n Hg He.
-  - simpl in He. destruct (resolve_attr ct c f) as [[k fm]|]; inversion He; reflexivity.
-  - simpl in He. destruct (find_fm ct c f); [|discriminate].
-    destruct (fm_method f0 && args_known (fm_args f0) a); [|discriminate].
-    destruct (call_vars (fm_args f0) a); inversion He; reflexivity.
-  - simpl in Hg. rewrite g_shared_fix in Hg. apply andb_true_iff in Hg as [G1 G2].
-    simpl in He.
-    destruct (eval ct e st) as [[st1 [d subs frs|k]]|] eqn:E; try discriminate.
-    destruct (can_fields (d_kind d)); [|discriminate]. rewrite evals_fix in He.
-    destruct (evals ct es st1) as [[st2 ns]|] eqn:E2; [|discriminate]. inversion He; subst.
-    apply IHe in E; [|exact G1]. subst. eapply evals_store_of; eassumption.
-  - simpl in Hg. apply andb_true_iff in Hg as [G1 G2]. simpl in He.
-    destruct (eval ct e st) as [[st1 n1]|] eqn:E; [|discriminate].
-    destruct (recv_fresh_inline _ _ _ _ _ G1 E) as [d [subs [frs ->]]].
-    inversion He; subst. eapply IHe; eassumption.
-  - simpl in Hg. rewrite g_shared_fix in Hg.
-    apply andb_true_iff in Hg as [G12 G3]. apply andb_true_iff in G12 as [G1 G2].
-    simpl in He.
-    destruct (eval ct e st) as [[st1 n1]|] eqn:E; [|discriminate].
-    destruct (recv_fresh_inline _ _ _ _ _ G1 E) as [d [subs [frs ->]]].
-    destruct (can_on (d_kind d)); [|discriminate]. rewrite evals_fix in He.
-    destruct (evals ct es st1) as [[st2 ns]|] eqn:E2; [|discriminate]. inversion He; subst.
-    apply IHe in E; [|exact G2]. subst. eapply evals_store_of; eassumption.
-Qed.
-
-Lemma evals_safe_store ct es st st' ns :
-  forallb g_shared es = true -> evals ct es st = Some (st', ns) -> st' = st.
-Proof.
-  apply evals_store_of. apply Forall_forall. intros e _. apply eval_safe_store.
-Qed.
-
-(* a store whose shared objects are as created at import time: leaves without variables *)
-Definition leafp (n : node) : Prop :=
-  exists d, n = N d [] [] /\ d_vars d = [] /\ d_fmt d = [].
-Definition pristine (st : store) : Prop := Forall leafp st.
-
-Lemma store0_pristine ct : pristine (store0 ct).
-Proof.
-  unfold pristine, store0. apply Forall_forall. intros n Hn. apply in_map_iff in Hn as [p [<- _]].
-  eexists. repeat split.
-Qed.
-
-Lemma set_nth_same {X} (l : list X) k x : nth_error l k = Some x -> set_nth k x l = l.
-Proof.
-  revert k. induction l as [|y r IH]; intros [|k] H; simpl in *; try discriminate.
-  - inversion H; reflexivity.
-  - rewrite IH by exact H. reflexivity.
-Qed.
-
-Lemma set_fmt_nil d : d_fmt d = [] -> set_fmt d [] = d.
-Proof. destruct d; simpl; intros ->; reflexivity. Qed.
-
-Lemma thread_fst {X Y} (g : tstate -> X -> option (tstate * Y)) (st : store) :
-  (forall s x s' y, fst s = st -> g s x = Some (s', y) -> fst s' = st) ->
-  forall l s s' ys, fst s = st -> thread g s l = Some (s', ys) -> fst s' = st.
-Proof.
-  intros Hg. induction l as [|x r IH]; simpl; intros s s' ys Hs H.
-  - injection H as <- <-. exact Hs.
-  - destruct (g s x) as [[s1 y]|] eqn:E1; [|discriminate].
-    destruct (thread g s1 r) as [[s2 ys2]|] eqn:E2; [|discriminate].
-    injection H as <- <-. eapply IH; [|exact E2]. eapply Hg; eassumption.
-Qed.
-
-Lemma to_ast_pristine st : pristine st -> forall fuel idx s n s' r,
-  fst s = st -> to_ast fuel idx s n = Some (s', r) -> fst s' = st.
-Proof.
-  intros Hp. induction fuel as [|f IH]; intros idx s n s' r Hs H; simpl in H; [discriminate|].
-  destruct n as [d subs frs | k].
-  - destruct (collect idx (snd s) (d_vars d)) as [[used1 fmt]|]; [|discriminate].
-    destruct (thread (to_ast f idx) (fst s, used1) subs) as [[s2 rs]|] eqn:E1; [|discriminate].
-    match type of H with context [thread ?g s2 frs] => set (gf := g) in H end.
-    destruct (thread gf s2 frs) as [[s3 frs']|] eqn:E2; [|discriminate].
-    injection H as Hs3 _. subst s'.
-    assert (H2 : fst s2 = st).
-    { apply (thread_fst (to_ast f idx) st (fun s0 x s0' y H0 H1 => IH idx s0 x s0' y H0 H1)
-               subs (fst s, used1) s2 rs Hs E1). }
-    refine (thread_fst gf st _ frs s2 s3 frs' H2 E2).
-    intros s0 x s0' y Hs0 Hx. unfold gf in Hx.
-    destruct (thread (to_ast f idx) s0 (snd x)) as [[s4 cs]|] eqn:E3; [|discriminate].
-    injection Hx as <- _.
-    exact (thread_fst (to_ast f idx) st (fun s1 x1 s1' y1 H0 H1 => IH idx s1 x1 s1' y1 H0 H1)
-             (snd x) s0 s4 cs Hs0 E3).
-  - destruct (nth_error (fst s) k) as [[d subs frs|]|] eqn:En; try discriminate.
-    assert (Hl : leafp (N d subs frs)).
-    { unfold pristine in Hp. rewrite Forall_forall in Hp. apply Hp.
-      rewrite <- Hs. eapply nth_error_In. exact En. }
-    destruct Hl as [d0 [Heq [Hv Hf]]]. inversion Heq; subst d0 subs frs.
-    destruct f as [|f']; simpl in H; [discriminate|].
-    rewrite Hv in H. simpl in H. injection H as <- _. simpl.
-    rewrite set_fmt_nil by exact Hf. rewrite <- Hs. apply set_nth_same. exact En.
-Qed.
-
-Lemma build_sels_from_pristine st : pristine st -> forall fuel ns idx s s' sns,
-  fst s = st -> build_sels_from fuel idx s ns = Some (s', sns) -> fst s' = st.
-Proof.
-  intros Hp fuel. induction ns as [|n r IH]; simpl; intros idx s s' sns Hs H.
-  - injection H as <- _. exact Hs.
-  - destruct (to_ast fuel idx s n) as [[s1 sn]|] eqn:E; [|discriminate].
-    apply (to_ast_pristine st Hp) in E; [|exact Hs].
-    destruct (build_sels_from fuel (S idx) s1 r) as [[s2 sns2]|] eqn:E2; [|discriminate].
-    injection H as <- _. eapply IH; eassumption.
-Qed.
-
-Lemma build_sels_pristine st : pristine st -> forall fuel ns idx st' sns,
-  build_sels fuel idx st ns = Some (st', sns) -> st' = st.
-Proof.
-  intros Hp fuel ns idx st' sns H. unfold build_sels in H.
-  destruct (build_sels_from fuel idx (st, []) ns) as [[[st1 u] sns1]|] eqn:E; [|discriminate].
-  injection H as <- _. apply (build_sels_from_pristine st Hp) in E; [exact E | reflexivity].
-Qed.
-
-Lemma run_op_safe_store ct fuel st es st' rq :
-  pristine st -> forallb g_shared es = true -> run_op ct fuel st es = Some (st', rq) -> st' = st.
-Proof.
-  intros Hp Hg H. unfold run_op in H.
-  destruct (evals ct es st) as [[st1 ns]|] eqn:E; [|discriminate].
-  apply evals_safe_store in E; [|exact Hg]. subst st1.
-  unfold build_request in H.
-  destruct (build_sels fuel 0 st ns) as [[st2 sns]|] eqn:E2; [|discriminate].
-  inversion H; subst. eapply build_sels_pristine; eassumption.
-Qed.
-
-Theorem safe_history_keeps_store ct fuel hist : forall st,
-  Forall (fun es => forallb g_shared es = true) hist ->
-  run_hist ct fuel (store0 ct) hist = Some st -> st = store0 ct.
-Proof.
-  assert (G : forall st0, pristine st0 -> forall st,
-             Forall (fun es => forallb g_shared es = true) hist ->
-             run_hist ct fuel st0 hist = Some st -> st = st0).
-  { induction hist as [|es r IH]; intros st0 Hp st Hf H; simpl in H.
-    - inversion H; reflexivity.
-    - inversion Hf; subst.
-      destruct (run_op ct fuel st0 es) as [[st1 rq]|] eqn:E; [|discriminate].
-      apply run_op_safe_store in E; [|exact Hp|assumption]. subst st1. eapply IH; eassumption. }
-  intro st. apply G. apply store0_pristine.
-Qed.
-
-(* the request of ANY operation is the same after a history that never called alias()/on() on a
-   shared object as right after import *)
-Theorem history_free_safe ct fuel hist st es :
-  Forall (fun es => forallb g_shared es = true) hist ->
-  run_hist ct fuel (store0 ct) hist = Some st ->
-  run_op ct fuel st es = run_op ct fuel (store0 ct) es.
-Proof. intros Hf H. rewrite (safe_history_keeps_store _ _ _ _ Hf H). reflexivity. Qed.
+     | [] => Some []
+     | x :: r => match eval ct x, go r with Some n, Some ns => Some (n :: ns) | _, _ => None end
+     end) es = evals ct es.
+Proof. induction es as [|x r IH]; simpl; [reflexivity | rewrite IH; reflexivity]. Qed.
 
 (* ------------------------------------------------------------------------------------------ *)
 (* the generated class table is well formed: GraphQL names, exact types                        *)
@@ -508,14 +377,6 @@ Proof.
   apply find_some in E as [Hin _]. apply find_some in H as [Hin2 _].
   unfold wf_ct in Hw. rewrite Forall_forall in Hw. specialize (Hw _ Hin).
   rewrite Forall_forall in Hw. apply Hw. exact Hin2.
-Qed.
-
-Lemma attrs_wf ct : wf_ct ct -> forall p, In p (attrs ct) -> wf_field (snd p).
-Proof.
-  intros Hw p H. unfold attrs in H. apply in_flat_map in H as [cm [Hcm Hp]].
-  apply in_map_iff in Hp as [fm [<- Hfm]]. apply filter_In in Hfm as [Hfm _]. simpl.
-  unfold wf_ct in Hw. rewrite Forall_forall in Hw. specialize (Hw _ Hcm).
-  rewrite Forall_forall in Hw. apply Hw. exact Hfm.
 Qed.
 
 Lemma omap_map_in {X Y} (f : X -> option Y) (g : X -> Y) l :
@@ -642,7 +503,7 @@ Definition op_vars (sns : list (sel string * node)) : list string :=
   flat_map (fun r : sel string * node => sel_vars (fst r)) sns.
 
 Lemma build_sels_from_handed fuel : forall ns idx s s' sns,
-  build_sels_from fuel idx s ns = Some (s', sns) -> handed (snd s) (snd s') (op_vars sns).
+  build_sels_from fuel idx s ns = Some (s', sns) -> handed s s' (op_vars sns).
 Proof.
   induction ns as [|n r IH]; simpl; intros idx s s' sns H.
   - injection H as <- <-. apply handed_nil.
@@ -652,12 +513,12 @@ Proof.
     eapply handed_app; [eapply to_ast_handed; exact E | eapply IH; exact E2].
 Qed.
 
-Theorem unique_var_names_operation fuel st ns st' sns :
-  build_sels fuel 0 st ns = Some (st', sns) -> NoDup (op_vars sns).
+Theorem unique_var_names_operation fuel ns sns :
+  build_sels fuel ns = Some sns -> NoDup (op_vars sns).
 Proof.
   unfold build_sels. intro H.
-  destruct (build_sels_from fuel 0 (st, []) ns) as [[[st1 u] sns1]|] eqn:E; [|discriminate].
-  injection H as _ <-. apply build_sels_from_handed in E. destruct E as [E _]. exact E.
+  destruct (build_sels_from fuel 0 [] ns) as [[u sns1]|] eqn:E; [|discriminate].
+  injection H as <-. apply build_sels_from_handed in E. destruct E as [E _]. exact E.
 Qed.
 
 (* ------------------------------------------------------------------------------------------ *)
@@ -766,186 +627,45 @@ Lemma ideals_fix ct es :
      end) es = ideals ct es.
 Proof. induction es as [|x r IH]; simpl; [reflexivity | rewrite IH; reflexivity]. Qed.
 
-(* ------------------------------------------------------------------------------------------ *)
-(* Step A: evaluated object graph ~ ideal object tree                                           *)
-(* ------------------------------------------------------------------------------------------ *)
-(* [sim st n ni]: the evaluated graph n (shared references into the pristine store st) is the
-   ideal tree ni with its attribute leaves replaced by references *)
-Inductive sim (st : store) : node -> node -> Prop :=
-| sim_sh k d : nth_error st k = Some (N d [] []) -> d_vars d = [] -> d_fmt d = [] ->
-               sim st (Sh k) (N d [] [])
-| sim_n d subs subs' frs frs' :
-    d_fmt d = [] -> Forall2 (sim st) subs subs' ->
-    Forall2 (fun a b : string * list node => fst a = fst b /\ Forall2 (sim st) (snd a) (snd b)) frs frs' ->
-    sim st (N d subs frs) (N d subs' frs').
-
-Definition fragrel (st : store) (a b : string * list node) : Prop :=
-  fst a = fst b /\ Forall2 (sim st) (snd a) (snd b).
-
-Lemma dset_fragrel st frs frs' t ns ns' :
-  Forall2 (fragrel st) frs frs' -> Forall2 (sim st) ns ns' ->
-  Forall2 (fragrel st) (dset frs t ns) (dset frs' t ns').
-Proof.
-  induction 1 as [|[k a] [k' b] r r' [Hk Hab] Hr IH]; simpl; intro Hn.
-  - constructor; [split; [reflexivity | exact Hn] | constructor].
-  - simpl in Hk. subst k'. destruct (streq t k).
-    + constructor; [split; [reflexivity | exact Hn] | exact Hr].
-    + constructor; [split; [reflexivity | exact Hab] | apply IH; exact Hn].
-Qed.
-
-Lemma nth_store0 ct k p : nth_error (attrs ct) k = Some p ->
-  nth_error (store0 ct) k = Some (N (fresh_data (fm_emit (snd p)) (fm_okind (snd p)) []) [] []).
-Proof. intro H. unfold store0. rewrite nth_error_map, H. reflexivity. Qed.
-
-Lemma evals_sim ct es :
-  Forall (fun e => forall st' n ni, g_shared e = true -> g_conform ct e = true ->
-                   eval ct e (store0 ct) = Some (st', n) ->
-                   ideal ct e = Some ni -> sim (store0 ct) n ni) es ->
-  forall st' ns nis, forallb g_shared es = true -> forallb (g_conform ct) es = true ->
-  evals ct es (store0 ct) = Some (st', ns) ->
-  ideals ct es = Some nis -> Forall2 (sim (store0 ct)) ns nis.
-Proof.
-  induction 1 as [|x r Hx Hr IH]; intros st' ns nis Hg Hcf He Hi; simpl in *.
-  - injection He as _ <-. injection Hi as <-. constructor.
-  - apply andb_true_iff in Hg as [G1 G2]. apply andb_true_iff in Hcf as [C1 C2].
-    destruct (eval ct x (store0 ct)) as [[st1 n]|] eqn:E; [|discriminate].
-    assert (st1 = store0 ct) by (eapply eval_safe_store; eassumption). subst st1.
-    destruct (evals ct r (store0 ct)) as [[st2 ns2]|] eqn:E2; [|discriminate].
-    destruct (ideal ct x) as [ni|] eqn:I1; [|discriminate].
-    destruct (ideals ct r) as [nis2|] eqn:I2; [|discriminate].
-    injection He as _ <-. injection Hi as <-. constructor.
-    + eapply Hx; eauto.
-    + eapply IH; eauto.
-Qed.
-
-Lemma sim_N_inv st d subs frs ni : sim st (N d subs frs) ni ->
-  exists subs' frs', ni = N d subs' frs' /\ d_fmt d = [] /\ Forall2 (sim st) subs subs' /\
-                     Forall2 (fragrel st) frs frs'.
-Proof. intro H. inversion H; subst. eexists. eexists. repeat split; eauto. Qed.
 
 Lemma g_conform_fix ct es :
   (fix go (l : list bexpr) : bool := match l with [] => true | x :: r => g_conform ct x && go r end) es
   = forallb (g_conform ct) es.
 Proof. induction es; simpl; [reflexivity | rewrite IHes; reflexivity]. Qed.
 
-Lemma eval_sim ct : wf_ct ct -> forall e st' n ni,
-  g_shared e = true -> g_conform ct e = true ->
-  eval ct e (store0 ct) = Some (st', n) -> ideal ct e = Some ni ->
-  sim (store0 ct) n ni.
-Proof.
-  intros Hw. induction e using bexpr_ind'; intros st' n ni Hg Hcf He Hi.
-  - simpl in He, Hi. unfold resolve_attr in *.
-    destruct (attr_index ct c f) as [k|]; [|discriminate].
-    destruct (nth_error (attrs ct) k) as [p|] eqn:En; [|discriminate].
-    injection He as _ <-. injection Hi as <-.
-    pose proof (attrs_wf ct Hw p (nth_error_In _ _ En)) as [Hemit _].
-    rewrite <- Hemit. apply sim_sh; [apply nth_store0; exact En | reflexivity | reflexivity].
-  - simpl in He, Hi. destruct (find_fm ct c f) as [fm|] eqn:Ef; [|discriminate].
-    destruct (fm_method fm && args_known (fm_args fm) a); [|discriminate].
-    destruct (find_fm_wf _ _ _ _ Hw Ef) as [Hemit [Hargs _]].
-    simpl in Hcf. rewrite Ef in Hcf.
-    rewrite (call_vars_exact a _ Hargs Hcf) in He.
-    destruct (ideal_vars (fm_args fm) a) as [vs|]; [|discriminate].
-    injection He as _ <-. injection Hi as <-. rewrite Hemit.
-    apply sim_n; [reflexivity | constructor | constructor].
-  - simpl in Hg. rewrite g_shared_fix in Hg. apply andb_true_iff in Hg as [G1 G2].
-    simpl in Hcf. rewrite g_conform_fix in Hcf. apply andb_true_iff in Hcf as [C1 C2].
-    simpl in He, Hi. rewrite ideals_fix in Hi.
-    destruct (eval ct e (store0 ct)) as [[st1 [d subs frs|k]]|] eqn:E; try discriminate.
-    destruct (can_fields (d_kind d)) eqn:Ec; [|discriminate]. rewrite evals_fix in He.
-    assert (st1 = store0 ct) by (eapply eval_safe_store; eassumption). subst st1.
-    destruct (evals ct es (store0 ct)) as [[st2 ns]|] eqn:E2; [|discriminate].
-    destruct (ideal ct e) as [ni0|] eqn:I1; [|discriminate].
-    destruct (ideals ct es) as [nis|] eqn:I2; [|destruct ni0; discriminate].
-    specialize (IHe _ _ _ G1 C1 eq_refl eq_refl).
-    apply sim_N_inv in IHe as [subs' [frs' [-> [Hf [Hs Hfr]]]]].
-    rewrite Ec in Hi. injection He as _ <-. injection Hi as <-.
-    apply sim_n; [exact Hf | | exact Hfr].
-    apply Forall2_app; [exact Hs|]. eapply evals_sim; eauto.
-  - simpl in Hg. apply andb_true_iff in Hg as [G1 G2]. simpl in He, Hi. simpl in Hcf.
-    destruct (eval ct e (store0 ct)) as [[st1 n1]|] eqn:E; [|discriminate].
-    destruct (recv_fresh_inline _ _ _ _ _ G1 E) as [d [subs [frs ->]]].
-    destruct (ideal ct e) as [ni0|] eqn:I1; [|discriminate].
-    specialize (IHe _ _ _ G2 Hcf eq_refl eq_refl).
-    apply sim_N_inv in IHe as [subs' [frs' [-> [Hf [Hs Hfr]]]]].
-    injection He as _ <-. injection Hi as <-.
-    apply sim_n; [destruct d; exact Hf | exact Hs | exact Hfr].
-  - simpl in Hg. rewrite g_shared_fix in Hg.
-    apply andb_true_iff in Hg as [G12 G3]. apply andb_true_iff in G12 as [G1 G2].
-    simpl in Hcf. rewrite g_conform_fix in Hcf. apply andb_true_iff in Hcf as [C1 C2].
-    simpl in He, Hi. rewrite ideals_fix in Hi.
-    destruct (eval ct e (store0 ct)) as [[st1 n1]|] eqn:E; [|discriminate].
-    destruct (recv_fresh_inline _ _ _ _ _ G1 E) as [d [subs [frs ->]]].
-    destruct (can_on (d_kind d)) eqn:Ec; [|discriminate]. rewrite evals_fix in He.
-    assert (st1 = store0 ct) by (eapply eval_safe_store; eassumption). subst st1.
-    destruct (evals ct es (store0 ct)) as [[st2 ns]|] eqn:E2; [|discriminate].
-    destruct (ideal ct e) as [ni0|] eqn:I1; [|discriminate].
-    destruct (ideals ct es) as [nis|] eqn:I2; [|destruct ni0; discriminate].
-    specialize (IHe _ _ _ G2 C1 eq_refl eq_refl).
-    apply sim_N_inv in IHe as [subs' [frs' [-> [Hf [Hs Hfr]]]]].
-    rewrite Ec in Hi. injection He as _ <-. injection Hi as <-.
-    apply sim_n; [exact Hf | exact Hs |].
-    apply dset_fragrel; [exact Hfr|]. eapply evals_sim; eauto.
-Qed.
-
 (* ------------------------------------------------------------------------------------------ *)
-(* Step B: to_ast + get_formatted_variables of a sharing-free graph resolve to the ideal        *)
+(* Step A: the evaluated object tree IS the ideal tree                                          *)
 (* ------------------------------------------------------------------------------------------ *)
-Definition frag_step (f idx : nat) (s' : tstate) (fr : string * list node)
-  : option (tstate * (string * list (sel string * node))) :=
-  match thread (to_ast f idx) s' (snd fr) with
-  | Some (s'', cs) => Some (s'', (fst fr, cs))
-  | None => None end.
-
-Definition node_sl (d : ndata) (subs : list node) (frs : list (string * list node)) (fmt : list fvar)
-  (rs : list (sel string * node)) (frs' : list (string * list (sel string * node))) : sel string :=
-  SF (eff_alias (d_alias d)) (d_name d)
-     (map (fun fv => (v_name (fv_var fv), fv_key fv)) fmt)
-     (if is_nil subs && is_nil frs then None
-      else Some (map (fun r => fst r) rs ++
-                 map (fun fr => SI (fst fr) (map (fun r => fst r) (snd fr))) frs')%list).
-
-Lemma to_ast_N_inv f idx s d subs frs s' sl n' :
-  to_ast (S f) idx s (N d subs frs) = Some (s', (sl, n')) ->
-  exists used1 fmt s2 rs frs',
-    collect idx (snd s) (d_vars d) = Some (used1, fmt) /\
-    thread (to_ast f idx) (fst s, used1) subs = Some (s2, rs) /\
-    thread (frag_step f idx) s2 frs = Some (s', frs') /\
-    sl = node_sl d subs frs fmt rs frs' /\
-    n' = N (set_fmt d fmt) (map (fun r => snd r) rs)
-           (map (fun fr => (fst fr, map (fun r => snd r) (snd fr))) frs').
+Lemma evals_ideals ct es :
+  Forall (fun e => g_conform ct e = true -> eval ct e = ideal ct e) es ->
+  forallb (g_conform ct) es = true -> evals ct es = ideals ct es.
 Proof.
-  intro H. simpl in H.
-  destruct (collect idx (snd s) (d_vars d)) as [[used1 fmt]|] eqn:Ec; [|discriminate].
-  destruct (thread (to_ast f idx) (fst s, used1) subs) as [[s2 rs]|] eqn:E1; [|discriminate].
-  change (fun (s' : tstate) (fr : string * list node) =>
-            match thread (to_ast f idx) s' (snd fr) with
-            | Some (s'', cs) => Some (s'', (fst fr, cs))
-            | None => None end) with (frag_step f idx) in H.
-  destruct (thread (frag_step f idx) s2 frs) as [[s3 frs']|] eqn:E2; [|discriminate].
-  injection H as <- <- <-. exists used1, fmt, s2, rs, frs'. repeat split; assumption.
+  induction 1 as [|x r Hx _ IH]; simpl; intro Hc; [reflexivity|].
+  apply andb_true_iff in Hc as [C1 C2]. rewrite (Hx C1), (IH C2). reflexivity.
 Qed.
 
-Definition rs_vars (rs : list (sel string * node)) : list string :=
-  flat_map (fun r : sel string * node => sel_vars (fst r)) rs.
-Definition frs_vars (frs' : list (string * list (sel string * node))) : list string :=
-  flat_map (fun fr : string * list (sel string * node) => rs_vars (snd fr)) frs'.
-
-Lemma thread_nil_inv {St X Y} (g : St -> X -> option (St * Y)) s s' ys :
-  thread g s [] = Some (s', ys) -> ys = [].
-Proof. simpl. intro H. injection H as _ <-. reflexivity. Qed.
-
-Lemma sel_vars_node d subs frs fmt rs frs' :
-  (subs = [] -> rs = []) -> (frs = [] -> frs' = []) ->
-  sel_vars (node_sl d subs frs fmt rs frs') = (map fv_key fmt ++ rs_vars rs ++ frs_vars frs')%list.
+(* names_graphql + type_exact + none_omitted + values_bound at the level of objects: for well-typed
+   values, what the builder calls construct is exactly the tree the expression stands for — including
+   the cases where there is none (unknown class/field/argument, missing required argument,
+   fields()/on() on a class without them) *)
+Theorem eval_ideal ct : wf_ct ct -> forall e, g_conform ct e = true -> eval ct e = ideal ct e.
 Proof.
-  intros H1 H2. unfold node_sl. simpl. rewrite map_map. simpl. f_equal.
-  destruct (is_nil subs && is_nil frs) eqn:En.
-  - apply andb_true_iff in En as [Ea Eb]. destruct subs; [|discriminate]. destruct frs; [|discriminate].
-    rewrite H1, H2 by reflexivity. reflexivity.
-  - rewrite sel_vars_go, flat_map_app, !flat_map_map. unfold rs_vars, frs_vars. f_equal.
-    apply flat_map_ext. intros [t cs]. simpl. rewrite sel_vars_go, flat_map_map. reflexivity.
+  intros Hw. induction e using bexpr_ind'; intro Hcf.
+  - simpl. destruct (find_fm ct c f) as [fm|] eqn:Ef; [|reflexivity].
+    destruct (find_fm_wf _ _ _ _ Hw Ef) as [-> _]. reflexivity.
+  - simpl in *. destruct (find_fm ct c f) as [fm|] eqn:Ef; [|reflexivity].
+    destruct (find_fm_wf _ _ _ _ Hw Ef) as [-> [Hargs _]].
+    rewrite (call_vars_exact a _ Hargs Hcf). reflexivity.
+  - simpl in Hcf. rewrite g_conform_fix in Hcf. apply andb_true_iff in Hcf as [C1 C2].
+    simpl. rewrite evals_fix, ideals_fix, (IHe C1), (evals_ideals ct es H C2). reflexivity.
+  - simpl in *. rewrite (IHe Hcf). reflexivity.
+  - simpl in Hcf. rewrite g_conform_fix in Hcf. apply andb_true_iff in Hcf as [C1 C2].
+    simpl. rewrite evals_fix, ideals_fix, (IHe C1), (evals_ideals ct es H C2). reflexivity.
 Qed.
+
+Lemma evals_ideals_all ct (Hw : wf_ct ct) es :
+  forallb (g_conform ct) es = true -> evals ct es = ideals ct es.
+Proof. apply evals_ideals. apply Forall_forall. intros e _. apply eval_ideal. exact Hw. Qed.
 
 Lemma nodup_app_inv {X} (a b : list X) :
   NoDup (a ++ b) -> NoDup a /\ NoDup b /\ (forall x, In x a -> In x b -> False).
@@ -958,11 +678,12 @@ Proof.
     + intros y [<-|Hy] Hyb; [apply Hx; apply in_or_app; right; exact Hyb | eapply Hd; eassumption].
 Qed.
 
-Lemma Forall2_is_nil {X Y} (R : X -> Y -> Prop) a b : Forall2 R a b -> is_nil a = is_nil b.
-Proof. destruct 1; reflexivity. Qed.
 
+(* ------------------------------------------------------------------------------------------ *)
+(* Step B: to_ast + get_formatted_variables of an object tree resolve to its own selection      *)
+(* ------------------------------------------------------------------------------------------ *)
 Section Faithful.
-Context {A : Type} (pj : var -> A) (st : store) (Hp : pristine st).
+Context {A : Type} (pj : var -> A).
 
 Definition agree (L : string -> option A) (G : list (string * var)) : Prop :=
   forall k v, In (k, v) G -> L k = Some (pj v).
@@ -980,143 +701,235 @@ Proof.
 Qed.
 
 Definition Gs (f : nat) (rs : list (sel string * node)) : list (string * var) :=
-  flat_map (fun r : sel string * node => get_formatted_variables f st (snd r)) rs.
+  flat_map (fun r : sel string * node => get_formatted_variables f (snd r)) rs.
 Definition Gf (f : nat) (frs' : list (string * list (sel string * node))) : list (string * var) :=
   flat_map (fun fr : string * list (sel string * node) => Gs f (snd fr)) frs'.
 
-Definition goodB (f : nat) : Prop := forall idx s n ni s' sl n',
-  fst s = st -> sim st n ni -> to_ast f idx s n = Some (s', (sl, n')) ->
-  keys (get_formatted_variables f st n') = sel_vars sl /\
-  (forall L, agree L (get_formatted_variables f st n') ->
-   forall f2 isl, node_sel pj f2 ni = Some isl -> resolve L sl = Some isl).
+(* vars_collected at every depth: the keys collected from the annotated tree are exactly the
+   variables of the AST, in order; and the AST resolves to the tree's own selection *)
+Definition goodB (f : nat) : Prop := forall idx s n s' sl n',
+  to_ast f idx s n = Some (s', (sl, n')) ->
+  keys (get_formatted_variables f n') = sel_vars sl /\
+  (forall L, agree L (get_formatted_variables f n') ->
+   forall f2 isl, node_sel pj f2 n = Some isl -> resolve L sl = Some isl).
 
-Lemma B_list f (IH : goodB f) idx : forall xs xis, Forall2 (sim st) xs xis ->
-  forall s s' rs, fst s = st -> thread (to_ast f idx) s xs = Some (s', rs) ->
-  fst s' = st /\ keys (Gs f rs) = rs_vars rs /\
-  (forall L, agree L (Gs f rs) -> forall f2 isls, omap (node_sel pj f2) xis = Some isls ->
+Lemma B_list f (IH : goodB f) idx : forall xs s s' rs,
+  thread (to_ast f idx) s xs = Some (s', rs) ->
+  keys (Gs f rs) = rs_vars rs /\
+  (forall L, agree L (Gs f rs) -> forall f2 isls, omap (node_sel pj f2) xs = Some isls ->
    omap (resolve L) (map (fun r => fst r) rs) = Some isls).
 Proof.
-  induction 1 as [|x xi xs xis Hx Hxs IHl]; intros s s' rs Hs H; simpl in H.
-  - injection H as <- <-. split; [exact Hs|]. split; [reflexivity|].
+  induction xs as [|x xs IHl]; intros s s' rs H.
+  - apply thread_nil_inv in H. subst. split; [reflexivity|].
     intros L _ f2 isls Hi. simpl in Hi. injection Hi as <-. reflexivity.
-  - destruct (to_ast f idx s x) as [[s1 [sl n1]]|] eqn:E1; [|discriminate].
+  - rewrite thread_cons in H.
+    destruct (to_ast f idx s x) as [[s1 [sl n1]]|] eqn:E1; [|discriminate].
     destruct (thread (to_ast f idx) s1 xs) as [[s2 rs2]|] eqn:E2; [|discriminate].
     injection H as <- <-.
-    pose proof (to_ast_pristine st Hp _ _ _ _ _ _ Hs E1) as Hs1.
-    destruct (IH _ _ _ _ _ _ _ Hs Hx E1) as [K1 R1].
-    destruct (IHl _ _ _ Hs1 E2) as [Hs2 [K2 R2]].
-    split; [exact Hs2|]. split.
+    destruct (IH _ _ _ _ _ _ E1) as [K1 R1]. destruct (IHl _ _ _ E2) as [K2 R2]. split.
     + unfold Gs, rs_vars, keys in *. simpl. rewrite map_app. simpl in K1. rewrite K1, K2. reflexivity.
     + intros L Ha f2 isls Hi. unfold Gs in Ha. simpl in Ha. apply agree_app in Ha as [Ha1 Ha2].
-      simpl in Hi. destruct (node_sel pj f2 xi) as [a|] eqn:N1; [|discriminate].
-      destruct (omap (node_sel pj f2) xis) as [b|] eqn:N2; [|discriminate]. injection Hi as <-.
+      simpl in Hi. destruct (node_sel pj f2 x) as [a|] eqn:N1; [|discriminate].
+      destruct (omap (node_sel pj f2) xs) as [b|] eqn:N2; [|discriminate]. injection Hi as <-.
       simpl. rewrite (R1 L Ha1 f2 a N1). rewrite (R2 L Ha2 f2 b N2). reflexivity.
 Qed.
 
-Lemma B_frags f (IH : goodB f) idx : forall frs frsi, Forall2 (fragrel st) frs frsi ->
-  forall s s' frs', fst s = st -> thread (frag_step f idx) s frs = Some (s', frs') ->
-  fst s' = st /\ keys (Gf f frs') = frs_vars frs' /\
+Lemma B_frags f (IH : goodB f) idx : forall frs s s' frs',
+  thread (frag_step f idx) s frs = Some (s', frs') ->
+  keys (Gf f frs') = frs_vars frs' /\
   (forall L, agree L (Gf f frs') -> forall f2 isls,
-   omap (fun fr : string * list node => option_map (SI (fst fr)) (omap (node_sel pj f2) (snd fr))) frsi = Some isls ->
+   omap (fun fr : string * list node => option_map (SI (fst fr)) (omap (node_sel pj f2) (snd fr))) frs = Some isls ->
    omap (resolve L) (map (fun fr => SI (fst fr) (map (fun r => fst r) (snd fr))) frs') = Some isls).
 Proof.
-  induction 1 as [|x xi xs xis [Hk Hx] Hxs IHl]; intros s s' frs' Hs H; simpl in H.
-  - injection H as <- <-. split; [exact Hs|]. split; [reflexivity|].
+  induction frs as [|x xs IHl]; intros s s' frs' H.
+  - apply thread_nil_inv in H. subst. split; [reflexivity|].
     intros L _ f2 isls Hi. simpl in Hi. injection Hi as <-. reflexivity.
-  - unfold frag_step at 1 in H.
+  - rewrite thread_cons in H. unfold frag_step at 1 in H.
     destruct (thread (to_ast f idx) s (snd x)) as [[s1 cs]|] eqn:E1; [|discriminate].
     destruct (thread (frag_step f idx) s1 xs) as [[s2 rs2]|] eqn:E2; [|discriminate].
     injection H as <- <-.
-    destruct (B_list f IH idx _ _ Hx _ _ _ Hs E1) as [Hs1 [K1 R1]].
-    destruct (IHl _ _ _ Hs1 E2) as [Hs2 [K2 R2]].
-    split; [exact Hs2|]. split.
+    destruct (B_list f IH idx _ _ _ _ E1) as [K1 R1]. destruct (IHl _ _ _ E2) as [K2 R2]. split.
     + unfold Gf, frs_vars, keys in *. simpl. rewrite map_app. rewrite K2. f_equal. exact K1.
     + intros L Ha f2 isls Hi. unfold Gf in Ha. simpl in Ha. apply agree_app in Ha as [Ha1 Ha2].
       simpl in Hi.
-      destruct (omap (node_sel pj f2) (snd xi)) as [a|] eqn:N1; [|discriminate]. simpl in Hi.
+      destruct (omap (node_sel pj f2) (snd x)) as [a|] eqn:N1; [|discriminate]. simpl in Hi.
       destruct (omap (fun fr : string * list node =>
-                        option_map (SI (fst fr)) (omap (node_sel pj f2) (snd fr))) xis) as [b|] eqn:N2;
+                        option_map (SI (fst fr)) (omap (node_sel pj f2) (snd fr))) xs) as [b|] eqn:N2;
         [|discriminate]. injection Hi as <-.
       cbn [map omap fst snd]. rewrite resolve_SI. rewrite (R1 L Ha1 f2 a N1). cbn [option_map].
-      rewrite (R2 L Ha2 f2 b N2). rewrite Hk. reflexivity.
+      rewrite (R2 L Ha2 f2 b N2). reflexivity.
 Qed.
 
 Lemma goodB_all : forall f, goodB f.
 Proof.
-  induction f as [|f IH]; intros idx s n ni s' sl n' Hs Hsim H; [discriminate|].
-  destruct Hsim as [k d Hn Hv Hf | d subs subs' frs frs' Hf Hsubs Hfrs].
-  - (* shared attribute leaf *)
-    simpl in H. rewrite Hs, Hn in H.
-    destruct f as [|f']; [discriminate|]. simpl in H. rewrite Hv in H. simpl in H.
-    injection H as _ <- <-. split.
-    + simpl. rewrite Hn, Hf. reflexivity.
-    + intros L _ f2 isl Hi. destruct f2 as [|f2']; [discriminate|]. simpl in Hi. rewrite Hv in Hi.
-      injection Hi as <-. rewrite resolve_SF. reflexivity.
-  - (* inline object *)
-    pose proof (to_ast_handed _ _ _ _ _ _ _ H) as [Hnd _].
-    apply to_ast_N_inv in H as [used1 [fmt [s2 [rs [frs2 [Ec [E1 [E2 [-> ->]]]]]]]]].
-    apply collect_handed in Ec as [_ Hvars].
-    destruct (B_list f IH idx _ _ Hsubs (fst s, used1) _ _ Hs E1) as [Hs2 [K1 R1]].
-    destruct (B_frags f IH idx _ _ Hfrs _ _ _ Hs2 E2) as [Hs3 [K2 R2]].
-    assert (Hsv : sel_vars (node_sl d subs frs fmt rs frs2)
-                  = (map fv_key fmt ++ rs_vars rs ++ frs_vars frs2)%list).
-    { apply sel_vars_node; intros ->.
-      - eapply thread_nil_inv. exact E1.
-      - eapply thread_nil_inv. exact E2. }
-    rewrite Hsv in Hnd.
-    assert (HG : get_formatted_variables (S f) st
-                   (N (set_fmt d fmt) (map (fun r => snd r) rs)
-                      (map (fun fr => (fst fr, map (fun r => snd r) (snd fr))) frs2))
-                 = (map fmt_entry fmt ++ Gs f rs ++ Gf f frs2)%list).
-    { simpl. rewrite !flat_map_map. simpl.
-      replace (flat_map (fun x : string * list (sel string * node) =>
-                 flat_map (get_formatted_variables f st) (map (fun r => snd r) (snd x))) frs2)
-        with (Gf f frs2)
-        by (unfold Gf, Gs; apply flat_map_ext; intros [t cs]; simpl; rewrite flat_map_map; reflexivity).
-      change (flat_map (fun x : sel string * node => get_formatted_variables f st (snd x)) rs) with (Gs f rs).
-      apply nodup_app_inv in Hnd as [_ [Hn2 Hd]].
-      apply dupdate_fresh.
-      - unfold keys. rewrite map_app. unfold keys in K1, K2. rewrite K1, K2. exact Hn2.
-      - intros k Hk Hk2. unfold keys in Hk, Hk2. rewrite map_app in Hk. unfold keys in K1, K2.
-        rewrite K1, K2 in Hk. rewrite map_map in Hk2. simpl in Hk2. eapply Hd; eassumption. }
-    rewrite HG. split.
-    + unfold keys. rewrite !map_app. unfold keys in K1, K2. rewrite K1, K2, Hsv, map_map. reflexivity.
-    + intros L Ha f2 isl Hi. apply agree_app in Ha as [Ha0 Ha12]. apply agree_app in Ha12 as [Ha1 Ha2].
-      destruct f2 as [|f2']; [discriminate|]. simpl in Hi.
-      destruct (omap (node_sel pj f2') subs') as [ss|] eqn:N1; [|discriminate].
-      destruct (omap (fun fr : string * list node =>
-                        option_map (SI (fst fr)) (omap (node_sel pj f2') (snd fr))) frs') as [fs|] eqn:N2;
-        [|discriminate].
-      injection Hi as <-. unfold node_sl. rewrite resolve_SF.
-      rewrite (rargs_fmt L fmt Ha0), Hvars.
-      rewrite <- (Forall2_is_nil _ _ _ Hsubs), <- (Forall2_is_nil _ _ _ Hfrs).
-      destruct (is_nil subs && is_nil frs); [reflexivity|].
-      rewrite omap_app, (R1 L Ha1 f2' ss N1), (R2 L Ha2 f2' fs N2). reflexivity.
+  induction f as [|f IH]; intros idx s [d subs frs] s' sl n' H; [discriminate|].
+  pose proof (to_ast_handed _ _ _ _ _ _ _ H) as [Hnd _].
+  apply to_ast_vars in H as [used1 [fmt [s2 [rs [frs2 [Ec [E1 [E2 [-> [-> Hsv]]]]]]]]]].
+  apply collect_handed in Ec as [_ Hvars].
+  destruct (B_list f IH idx _ _ _ _ E1) as [K1 R1].
+  destruct (B_frags f IH idx _ _ _ _ E2) as [K2 R2].
+  rewrite Hsv in Hnd.
+  assert (HG : get_formatted_variables (S f) (node_ann d fmt rs frs2)
+               = (map fmt_entry fmt ++ Gs f rs ++ Gf f frs2)%list).
+  { unfold node_ann. simpl. rewrite !flat_map_map. simpl.
+    replace (flat_map (fun x : string * list (sel string * node) =>
+               flat_map (get_formatted_variables f) (map (fun r => snd r) (snd x))) frs2)
+      with (Gf f frs2)
+      by (unfold Gf, Gs; apply flat_map_ext; intros [t cs]; simpl; rewrite flat_map_map; reflexivity).
+    change (flat_map (fun x : sel string * node => get_formatted_variables f (snd x)) rs) with (Gs f rs).
+    apply nodup_app_inv in Hnd as [_ [Hn2 Hd]].
+    apply dupdate_fresh.
+    - unfold keys. rewrite map_app. unfold keys in K1, K2. rewrite K1, K2. exact Hn2.
+    - intros k Hk Hk2. unfold keys in Hk, Hk2. rewrite map_app in Hk. unfold keys in K1, K2.
+      rewrite K1, K2 in Hk. rewrite map_map in Hk2. simpl in Hk2. eapply Hd; eassumption. }
+  rewrite HG. split.
+  - unfold keys. rewrite !map_app. unfold keys in K1, K2. rewrite K1, K2, Hsv, map_map. reflexivity.
+  - intros L Ha f2 isl Hi. apply agree_app in Ha as [Ha0 Ha12]. apply agree_app in Ha12 as [Ha1 Ha2].
+    destruct f2 as [|f2']; [discriminate|]. simpl in Hi.
+    destruct (omap (node_sel pj f2') subs) as [ss|] eqn:N1; [|discriminate].
+    destruct (omap (fun fr : string * list node =>
+                      option_map (SI (fst fr)) (omap (node_sel pj f2') (snd fr))) frs) as [fs|] eqn:N2;
+      [|discriminate].
+    injection Hi as <-. unfold node_sl. rewrite resolve_SF.
+    rewrite (rargs_fmt L fmt Ha0), Hvars.
+    destruct (is_nil subs && is_nil frs); [reflexivity|].
+    rewrite omap_app, (R1 L Ha1 f2' ss N1), (R2 L Ha2 f2' fs N2). reflexivity.
+Qed.
+
+(* totality of to_ast: fuel = depth of the tree *)
+Lemma collect_total idx : forall vs used, exists r, collect idx used vs = Some r.
+Proof.
+  induction vs as [|v r IH]; intro used; simpl; [eauto|].
+  destruct (format_variable_name_total idx (v_name v) used) as [u ->].
+  destruct (IH (u :: used)) as [[u2 fs] ->]. eauto.
+Qed.
+
+Definition totalB (f : nat) : Prop := forall idx s n isl,
+  node_sel pj f n = Some isl -> exists s' r, to_ast f idx s n = Some (s', r).
+
+Lemma T_list f (IH : totalB f) idx : forall xs isls, omap (node_sel pj f) xs = Some isls ->
+  forall s, exists s' rs, thread (to_ast f idx) s xs = Some (s', rs).
+Proof.
+  induction xs as [|x xs IHl]; intros isls Hi s; simpl in Hi.
+  { exists s, []. reflexivity. }
+  destruct (node_sel pj f x) as [a|] eqn:N1; [|discriminate].
+  destruct (omap (node_sel pj f) xs) as [b|] eqn:N2; [|discriminate].
+  destruct (IH idx s x a N1) as [s1 [r E1]]. destruct (IHl _ eq_refl s1) as [s2 [rs E2]].
+  rewrite thread_cons, E1, E2. eauto.
+Qed.
+
+Lemma T_frags f (IH : totalB f) idx : forall frs isls,
+  omap (fun fr : string * list node => option_map (SI (fst fr)) (omap (node_sel pj f) (snd fr))) frs = Some isls ->
+  forall s, exists s' frs', thread (frag_step f idx) s frs = Some (s', frs').
+Proof.
+  induction frs as [|x xs IHl]; intros isls Hi s; simpl in Hi.
+  { exists s, []. reflexivity. }
+  destruct (omap (node_sel pj f) (snd x)) as [a|] eqn:N1; [|discriminate]. simpl in Hi.
+  destruct (omap (fun fr : string * list node =>
+                    option_map (SI (fst fr)) (omap (node_sel pj f) (snd fr))) xs) as [b|] eqn:N2; [|discriminate].
+  destruct (T_list f IH idx _ _ N1 s) as [s1 [cs E1]]. destruct (IHl _ eq_refl s1) as [s2 [frs2 E2]].
+  rewrite thread_cons. unfold frag_step at 1. rewrite E1, E2. eauto.
+Qed.
+
+Lemma totalB_all : forall f, totalB f.
+Proof.
+  induction f as [|f IH]; intros idx s [d subs frs] isl Hn; [discriminate|].
+  simpl in Hn.
+  destruct (omap (node_sel pj f) subs) as [ss|] eqn:N1; [|discriminate].
+  destruct (omap (fun fr : string * list node =>
+                    option_map (SI (fst fr)) (omap (node_sel pj f) (snd fr))) frs) as [fs|] eqn:N2;
+    [|discriminate].
+  destruct (collect_total idx (d_vars d) s) as [[used1 fmt] Ec].
+  destruct (T_list f IH idx _ _ N1 used1) as [s2 [rs E1]].
+  destruct (T_frags f IH idx _ _ N2 s2) as [s3 [frs2 E2]].
+  rewrite to_ast_S, Ec, E1, E2. eauto.
 Qed.
 End Faithful.
 
 (* ------------------------------------------------------------------------------------------ *)
+(* Reuse: a field object that already went through an operation builds the same request again   *)
+(* (formatted_variables left by the earlier operation are recomputed, never read)               *)
+(* ------------------------------------------------------------------------------------------ *)
+Definition reuseB (f : nat) : Prop := forall idx u n u' sl n',
+  to_ast f idx u n = Some (u', (sl, n')) -> forall i2 u2, to_ast f i2 u2 n' = to_ast f i2 u2 n.
+
+Lemma thread_reuse {X} (g : list string -> X -> option (list string * (sel string * X)))
+      (h : list string -> X -> option (list string * (sel string * X))) :
+  forall xs s s' rs, thread g s xs = Some (s', rs) ->
+  (forall x s0 s0' r, In x xs -> g s0 x = Some (s0', r) -> forall u, h u (snd r) = h u x) ->
+  forall u, thread h u (map (fun r => snd r) rs) = thread h u xs.
+Proof.
+  induction xs as [|x xs IH]; intros s s' rs H Hx u.
+  - apply thread_nil_inv in H. subst. reflexivity.
+  - rewrite thread_cons in H. destruct (g s x) as [[s1 r]|] eqn:E1; [|discriminate].
+    destruct (thread g s1 xs) as [[s2 rs2]|] eqn:E2; [|discriminate]. injection H as <- <-.
+    simpl map. rewrite !thread_cons. rewrite (Hx x s s1 r (or_introl eq_refl) E1 u).
+    destruct (h u x) as [[u1 y]|]; [|reflexivity].
+    rewrite (IH _ _ _ E2); [reflexivity|]. intros x0 s0 s0' r0 Hin. apply Hx. right. exact Hin.
+Qed.
+
+Lemma frags_reuse f idx i2 (IH : reuseB f) : forall frs s2 u' frs2,
+  thread (frag_step f idx) s2 frs = Some (u', frs2) ->
+  forall w, thread (frag_step f i2) w
+      (map (fun fr : string * list (sel string * node) => (fst fr, map (fun r => snd r) (snd fr))) frs2)
+    = thread (frag_step f i2) w frs.
+Proof.
+  induction frs as [|x xs IHf]; intros s2 u' frs2 E2 w.
+  - apply thread_nil_inv in E2. subst. reflexivity.
+  - rewrite thread_cons in E2. unfold frag_step at 1 in E2.
+    destruct (thread (to_ast f idx) s2 (snd x)) as [[s3 cs]|] eqn:E3; [|discriminate].
+    destruct (thread (frag_step f idx) s3 xs) as [[s4 r4]|] eqn:E4; [|discriminate].
+    injection E2 as _ <-. simpl map. rewrite !thread_cons. unfold frag_step at 1 3. simpl.
+    rewrite (thread_reuse (to_ast f idx) (to_ast f i2) _ _ _ _ E3)
+      by (intros x0 s0 s0' [a b] _ Hx w'; simpl; eapply IH; exact Hx).
+    destruct (thread (to_ast f i2) w (snd x)) as [[w1 cs2]|]; [|reflexivity].
+    rewrite (IHf _ _ _ E4). reflexivity.
+Qed.
+
+Lemma reuseB_all : forall f, reuseB f.
+Proof.
+  induction f as [|f IH]; intros idx u [d subs frs] u' sl n' H i2 u2; [discriminate|].
+  apply to_ast_N_inv in H as [used1 [fmt [s2 [rs [frs2 [Ec [E1 [E2 [-> ->]]]]]]]]].
+  unfold node_ann. rewrite !to_ast_S. destruct d as [nm kd vs fm al]. simpl.
+  destruct (collect i2 u2 vs) as [[v1 fmt2]|]; [|reflexivity].
+  rewrite (thread_reuse (to_ast f idx) (to_ast f i2) _ _ _ _ E1)
+    by (intros x s0 s0' [a b] _ Hx w'; simpl; eapply IH; exact Hx).
+  destruct (thread (to_ast f i2) v1 subs) as [[w2 rs2]|]; [|reflexivity].
+  rewrite (frags_reuse f idx i2 IH _ _ _ _ E2).
+  destruct (thread (frag_step f i2) w2 frs) as [[w3 frs3]|]; [|reflexivity].
+  unfold node_sl, node_ann. simpl.
+  assert (N1 : is_nil (map (fun r : sel string * node => snd r) rs) = is_nil subs).
+  { destruct subs; [apply thread_nil_inv in E1; subst; reflexivity|].
+    rewrite thread_cons in E1. destruct (to_ast f idx used1 n); [|discriminate]. destruct p.
+    destruct (thread (to_ast f idx) l subs); [|discriminate]. destruct p0. injection E1 as _ <-. reflexivity. }
+  assert (N2 : is_nil (map (fun fr : string * list (sel string * node) =>
+                              (fst fr, map (fun r => snd r) (snd fr))) frs2) = is_nil frs).
+  { destruct frs; [apply thread_nil_inv in E2; subst; reflexivity|].
+    rewrite thread_cons in E2. destruct (frag_step f idx s2 p); [|discriminate]. destruct p0.
+    destruct (thread (frag_step f idx) l frs); [|discriminate]. destruct p1. injection E2 as _ <-. reflexivity. }
+  rewrite N1, N2. reflexivity.
+Qed.
+
+(* ------------------------------------------------------------------------------------------ *)
 (* Step C: the whole operation                                                                  *)
 (* ------------------------------------------------------------------------------------------ *)
-Lemma C_list st (Hp : pristine st) fuel : forall ns nis, Forall2 (sim st) ns nis ->
-  forall idx s s' sns, fst s = st -> build_sels_from fuel idx s ns = Some (s', sns) ->
-  keys (Gs st fuel sns) = op_vars sns /\
-  (forall L, agree tv L (Gs st fuel sns) -> forall f2 isls, omap (node_sel tv f2) nis = Some isls ->
+Lemma C_list fuel : forall ns idx s s' sns,
+  build_sels_from fuel idx s ns = Some (s', sns) ->
+  keys (Gs fuel sns) = op_vars sns /\
+  (forall L, agree tv L (Gs fuel sns) -> forall f2 isls, omap (node_sel tv f2) ns = Some isls ->
    omap (resolve L) (map (fun r => fst r) sns) = Some isls).
 Proof.
-  induction 1 as [|x xi xs xis Hx Hxs IHl]; intros idx s s' sns Hs H; simpl in H.
+  induction ns as [|x xs IHl]; intros idx s s' sns H; simpl in H.
   - injection H as _ <-. split; [reflexivity|].
     intros L _ f2 isls Hi. simpl in Hi. injection Hi as <-. reflexivity.
   - destruct (to_ast fuel idx s x) as [[s1 [sl n1]]|] eqn:E1; [|discriminate].
     destruct (build_sels_from fuel (S idx) s1 xs) as [[s2 rs2]|] eqn:E2; [|discriminate].
     injection H as _ <-.
-    pose proof (to_ast_pristine st Hp _ _ _ _ _ _ Hs E1) as Hs1.
-    destruct (goodB_all tv st Hp fuel _ _ _ _ _ _ _ Hs Hx E1) as [K1 R1].
-    destruct (IHl _ _ _ _ Hs1 E2) as [K2 R2]. split.
+    destruct (goodB_all tv fuel _ _ _ _ _ _ E1) as [K1 R1]. destruct (IHl _ _ _ _ E2) as [K2 R2]. split.
     + unfold Gs, op_vars, keys in *. simpl. rewrite map_app. simpl in K1. rewrite K1, K2. reflexivity.
     + intros L Ha f2 isls Hi. unfold Gs in Ha. simpl in Ha. apply agree_app in Ha as [Ha1 Ha2].
-      simpl in Hi. destruct (node_sel tv f2 xi) as [a|] eqn:N1; [|discriminate].
-      destruct (omap (node_sel tv f2) xis) as [b|] eqn:N2; [|discriminate]. injection Hi as <-.
+      simpl in Hi. destruct (node_sel tv f2 x) as [a|] eqn:N1; [|discriminate].
+      destruct (omap (node_sel tv f2) xs) as [b|] eqn:N2; [|discriminate]. injection Hi as <-.
       simpl. rewrite (R1 L Ha1 f2 a N1). rewrite (R2 L Ha2 f2 b N2). reflexivity.
 Qed.
 
@@ -1135,46 +948,33 @@ Proof.
       apply (Hd k Hk2). apply in_or_app. left. exact Hk.
 Qed.
 
-Lemma evals_sim_all ct (Hw : wf_ct ct) es st' ns nis :
-  forallb g_shared es = true -> forallb (g_conform ct) es = true ->
-  evals ct es (store0 ct) = Some (st', ns) ->
-  ideals ct es = Some nis -> Forall2 (sim (store0 ct)) ns nis.
-Proof.
-  apply evals_sim. apply Forall_forall. intros e _. intros. eapply eval_sim; eassumption.
-Qed.
 
-(* doc_valid + values_bound, composed: for an operation that does not call alias()/on() on a shared
-   object, run right after import, the request resolves to the ideal request; the declared variables
+(* doc_valid + values_bound, composed, for ANY operation with well-typed values: whenever it builds and
+   the expression denotes a request, the request resolves to the ideal request; the declared variables
    are exactly the variables used, each once, and each is bound *)
-Theorem doc_valid_store0 ct fuel f2 es st' rq idl :
-  wf_ct ct -> forallb g_shared es = true -> forallb (g_conform ct) es = true ->
-  run_op ct fuel (store0 ct) es = Some (st', rq) -> ideal_sels ct f2 es = Some idl ->
+Theorem doc_valid ct fuel f2 es rq idl :
+  wf_ct ct -> forallb (g_conform ct) es = true ->
+  run_op ct fuel es = Some rq -> ideal_sels ct f2 es = Some idl ->
   resolves (look_req rq) (r_sels rq) = Some idl /\
   NoDup (keys (r_vardefs rq)) /\
   keys (r_vardefs rq) = flat_map sel_vars (r_sels rq) /\
-  keys (r_values rq) = keys (r_vardefs rq) /\
-  st' = store0 ct.
+  keys (r_values rq) = keys (r_vardefs rq).
 Proof.
-  intros Hw Hg Hcf Hr Hi. unfold run_op in Hr.
-  destruct (evals ct es (store0 ct)) as [[st1 ns]|] eqn:Ee; [|discriminate].
-  assert (st1 = store0 ct) by (eapply evals_safe_store; eassumption). subst st1.
-  unfold ideal_sels in Hi. destruct (ideals ct es) as [nis|] eqn:Ei; [|discriminate].
-  pose proof (evals_sim_all ct Hw _ _ _ _ Hg Hcf Ee Ei) as Hsim.
-  unfold build_request in Hr.
-  destruct (build_sels fuel 0 (store0 ct) ns) as [[st2 sns]|] eqn:Eb; [|discriminate].
-  pose proof (unique_var_names_operation _ _ _ _ _ Eb) as Hnd.
-  pose proof (build_sels_pristine _ (store0_pristine ct) _ _ _ _ _ Eb) as ->.
+  intros Hw Hcf Hr Hi. unfold run_op in Hr. unfold ideal_sels in Hi.
+  rewrite (evals_ideals_all ct Hw es Hcf) in Hr.
+  destruct (ideals ct es) as [ns|]; [|discriminate].
+  unfold build_request in Hr. destruct (build_sels fuel ns) as [sns|] eqn:Eb; [|discriminate].
+  pose proof (unique_var_names_operation _ _ _ Eb) as Hnd.
   unfold build_sels in Eb.
-  destruct (build_sels_from fuel 0 (store0 ct, []) ns) as [[[st3 u3] sns3]|] eqn:Ef; [|discriminate].
-  injection Eb as _ ->.
-  destruct (C_list _ (store0_pristine ct) fuel _ _ Hsim 0 (store0 ct, []) _ _ eq_refl Ef) as [K R].
-  injection Hr as <- <-. cbn [r_sels r_vardefs r_values].
-  set (comb := combine fuel (store0 ct) (map (fun r => snd r) sns)).
-  assert (Hc : comb = Gs (store0 ct) fuel sns).
+  destruct (build_sels_from fuel 0 [] ns) as [[u3 sns3]|] eqn:Ef; [|discriminate].
+  injection Eb as ->.
+  destruct (C_list fuel _ _ _ _ _ Ef) as [K R].
+  injection Hr as <-. cbn [r_sels r_vardefs r_values].
+  set (comb := combine fuel (map (fun r => snd r) sns)).
+  assert (Hc : comb = Gs fuel sns).
   { unfold comb, combine. rewrite combine_concat.
     - simpl. unfold Gs. rewrite flat_map_map. reflexivity.
-    - simpl. rewrite flat_map_map. change (keys (Gs (store0 ct) fuel sns)) with (keys (Gs (store0 ct) fuel sns)).
-      fold (Gs (store0 ct) fuel sns). rewrite K. exact Hnd. }
+    - simpl. rewrite flat_map_map. fold (Gs fuel sns). rewrite K. exact Hnd. }
   assert (Hk : keys comb = op_vars sns) by (rewrite Hc; exact K).
   assert (Hk1 : forall (Y : Type) (h : var -> Y),
             keys (map (fun kv : string * var => (fst kv, h (snd kv))) comb) = keys comb).
@@ -1189,20 +989,60 @@ Proof.
   - rewrite !Hk1. reflexivity.
 Qed.
 
-(* the same after ANY history free of shared mutations *)
-Theorem doc_valid ct fuel f2 hist st es st' rq idl :
-  wf_ct ct ->
-  Forall (fun es => forallb g_shared es = true) hist -> forallb g_shared es = true ->
-  forallb (g_conform ct) es = true ->
-  run_hist ct fuel (store0 ct) hist = Some st ->
-  run_op ct fuel st es = Some (st', rq) -> ideal_sels ct f2 es = Some idl ->
-  resolves (look_req rq) (r_sels rq) = Some idl /\
-  NoDup (keys (r_vardefs rq)) /\
-  keys (r_vardefs rq) = flat_map sel_vars (r_sels rq) /\
-  keys (r_values rq) = keys (r_vardefs rq).
+Lemma build_sels_from_total f : forall ns isls, omap (node_sel tv f) ns = Some isls ->
+  forall idx s, exists s' sns, build_sels_from f idx s ns = Some (s', sns).
 Proof.
-  intros Hw Hh Hg Hcf Hr Ho Hi. rewrite (safe_history_keeps_store _ _ _ _ Hh Hr) in Ho.
-  destruct (doc_valid_store0 _ _ _ _ _ _ _ Hw Hg Hcf Ho Hi) as [H1 [H2 [H3 [H4 _]]]]. auto.
+  induction ns as [|x xs IHl]; intros isls Hi idx s; simpl in Hi.
+  { exists s, []. reflexivity. }
+  destruct (node_sel tv f x) as [a|] eqn:N1; [|discriminate].
+  destruct (omap (node_sel tv f) xs) as [b|] eqn:N2; [|discriminate].
+  destruct (totalB_all tv f idx s x a N1) as [s1 [r E1]].
+  destruct (IHl _ eq_refl (S idx) s1) as [s2 [sns E2]].
+  exists s2, (r :: sns). simpl. rewrite E1, E2. reflexivity.
+Qed.
+
+(* No exception + the composed statement: an operation that denotes a request (its ideal exists and
+   has depth <= f) with well-typed values ALWAYS builds with recursion depth f, and its request is the
+   ideal one *)
+Theorem doc_valid_total ct f es idl :
+  wf_ct ct -> forallb (g_conform ct) es = true -> ideal_sels ct f es = Some idl ->
+  exists rq, run_op ct f es = Some rq /\
+    resolves (look_req rq) (r_sels rq) = Some idl /\
+    NoDup (keys (r_vardefs rq)) /\
+    keys (r_vardefs rq) = flat_map sel_vars (r_sels rq) /\
+    keys (r_values rq) = keys (r_vardefs rq).
+Proof.
+  intros Hw Hcf Hi. pose proof Hi as Hi0. unfold ideal_sels in Hi.
+  destruct (ideals ct es) as [ns|] eqn:Ei; [|discriminate].
+  destruct (build_sels_from_total f _ _ Hi 0 []) as [u1 [sns Eb]].
+  assert (Er : exists rq, run_op ct f es = Some rq).
+  { unfold run_op. rewrite (evals_ideals_all ct Hw es Hcf), Ei.
+    unfold build_request, build_sels. rewrite Eb. simpl. eauto. }
+  destruct Er as [rq Er]. exists rq. split; [exact Er|]. eapply doc_valid; eassumption.
+Qed.
+
+(* history freedom for re-used objects: the field objects of an operation, after it was sent, build
+   the same request again — in any later operation position *)
+Lemma build_sels_from_reuse fuel : forall ns idx u u' sns,
+  build_sels_from fuel idx u ns = Some (u', sns) ->
+  forall i2 u2, build_sels_from fuel i2 u2 (map (fun r => snd r) sns) = build_sels_from fuel i2 u2 ns.
+Proof.
+  induction ns as [|x xs IH]; intros idx u u' sns H i2 u2; simpl in H.
+  - injection H as _ <-. reflexivity.
+  - destruct (to_ast fuel idx u x) as [[s1 [sl n1]]|] eqn:E1; [|discriminate].
+    destruct (build_sels_from fuel (S idx) s1 xs) as [[s2 rs2]|] eqn:E2; [|discriminate].
+    injection H as _ <-. simpl. rewrite (reuseB_all fuel _ _ _ _ _ _ E1 i2 u2).
+    destruct (to_ast fuel i2 u2 x) as [[w1 y]|]; [|reflexivity].
+    rewrite (IH _ _ _ _ E2). reflexivity.
+Qed.
+
+Theorem reuse_request fuel ns sns :
+  build_sels fuel ns = Some sns ->
+  build_request fuel (map (fun r => snd r) sns) = build_request fuel ns.
+Proof.
+  unfold build_sels. intro H.
+  destruct (build_sels_from fuel 0 [] ns) as [[u sns1]|] eqn:E; [|discriminate]. injection H as <-.
+  unfold build_request, build_sels. rewrite (build_sels_from_reuse fuel _ _ _ _ _ E 0 []). reflexivity.
 Qed.
 
 (* ------------------------------------------------------------------------------------------ *)
@@ -1254,8 +1094,6 @@ Definition e_on := Fields (Call "Query" "me" []) [On fav "Person" [pid]].
 Definition es_collide :=
   [Fields (Alias (Call "Query" "p" [("a", JInt 1%Z)]) "u") [Alias (Call "PersonFields" "x" [("a", JInt 5%Z)]) "v"];
    Fields (Call "Query" "p" [("a_0", JInt 3%Z)]) [Call "PersonFields" "x" [("a", JInt 7%Z)]]].
-Definition ns_collide : list node :=
-  match evals ct es_collide (store0 ct) with Some (_, ns) => ns | None => [] end.
 (* list-typed serialised arguments (fix 3032a3a): item by item, None items of a nullable item type kept *)
 Definition e_serlist := Fields (Call "Query" "events"
   [("at", JArr [JStr "a"; JStr "b"]); ("opt", JArr [JNull; JStr "c"])]) [pid].
@@ -1268,16 +1106,15 @@ Definition es_good :=
 End Demo.
 
 (* the property on one input, decided: does the request of [es] after [hist] resolve to the ideal? *)
-Definition faithful_on (ct : list classmeta) (fuel : nat) (hist : list (list bexpr)) (es : list bexpr) : option bool :=
-  match run_hist ct fuel (store0 ct) hist with
-  | Some st =>
-      match run_op ct fuel st es, ideal_sels ct fuel es with
-      | Some (_, rq), Some idl =>
-          Some (match resolves (look_req rq) (r_sels rq) with
-                | Some l => sel_eqb_sexp (s_ideal l) (s_ideal idl)
-                | None => false end)
-      | _, _ => None end
-  | None => None end.
+
+(* the property on one input, decided: does the request of [es] resolve to the ideal? *)
+Definition faithful_on (ct : list classmeta) (fuel : nat) (es : list bexpr) : option bool :=
+  match run_op ct fuel es, ideal_sels ct fuel es with
+  | Some rq, Some idl =>
+      Some (match resolves (look_req rq) (r_sels rq) with
+            | Some l => sel_eqb_sexp (s_ideal l) (s_ideal idl)
+            | None => false end)
+  | _, _ => None end.
 
 Lemma NoDup_nodupb l : NoDup l -> nodupb l = true.
 Proof.
@@ -1286,204 +1123,3 @@ Proof.
 Qed.
 
 
-(* ------------------------------------------------------------------------------------------ *)
-(* Totality: a well-formed expression builds (no exception), with fuel = depth of its ideal + 1 *)
-(* ------------------------------------------------------------------------------------------ *)
-Lemma collect_total idx : forall vs used, exists r, collect idx used vs = Some r.
-Proof.
-  induction vs as [|v r IH]; intro used; simpl; [eauto|].
-  destruct (format_variable_name_total idx (v_name v) used) as [u ->].
-  destruct (IH (u :: used)) as [[u2 fs] ->]. eauto.
-Qed.
-
-Lemma store0_no_fields ct k d subs frs : wf_ct ct ->
-  nth_error (store0 ct) k = Some (N d subs frs) -> can_fields (d_kind d) = false.
-Proof.
-  intros Hw H. unfold store0 in H. rewrite nth_error_map in H.
-  destruct (nth_error (attrs ct) k) as [p|] eqn:En; [|discriminate]. simpl in H. injection H as <- _ _.
-  destruct (attrs_wf ct Hw p (nth_error_In _ _ En)) as [_ [_ Hk]]. simpl. apply Hk.
-  unfold attrs in En. apply nth_error_In in En. apply in_flat_map in En as [cm [_ Hp]].
-  apply in_map_iff in Hp as [fm [<- Hfm]]. apply filter_In in Hfm as [_ Hm]. simpl.
-  apply negb_true_iff in Hm. exact Hm.
-Qed.
-
-Lemma ideals_evals ct es :
-  Forall (fun e => forall ni, g_shared e = true -> g_conform ct e = true -> ideal ct e = Some ni ->
-                   exists n, eval ct e (store0 ct) = Some (store0 ct, n)) es ->
-  forall nis, forallb g_shared es = true -> forallb (g_conform ct) es = true ->
-  ideals ct es = Some nis -> exists ns, evals ct es (store0 ct) = Some (store0 ct, ns).
-Proof.
-  induction 1 as [|x r Hx Hr IH]; intros nis Hg Hc Hi; simpl in *; [eauto|].
-  apply andb_true_iff in Hg as [G1 G2]. apply andb_true_iff in Hc as [C1 C2].
-  destruct (ideal ct x) as [ni|] eqn:I1; [|discriminate].
-  destruct (ideals ct r) as [nis2|] eqn:I2; [|discriminate].
-  destruct (Hx _ G1 C1 eq_refl) as [n ->]. destruct (IH _ G2 C2 eq_refl) as [ns ->]. eauto.
-Qed.
-
-(* whenever the expression denotes a request, evaluating it right after import succeeds *)
-Lemma ideal_eval ct : wf_ct ct -> forall e ni,
-  g_shared e = true -> g_conform ct e = true -> ideal ct e = Some ni ->
-  exists n, eval ct e (store0 ct) = Some (store0 ct, n).
-Proof.
-  intros Hw. induction e using bexpr_ind'; intros ni Hg Hcf Hi.
-  - simpl in *. destruct (resolve_attr ct c f) as [[k fm]|]; [eauto | discriminate].
-  - simpl in *. destruct (find_fm ct c f) as [fm|] eqn:Ef; [|discriminate].
-    destruct (fm_method fm && args_known (fm_args fm) a); [|discriminate].
-    destruct (find_fm_wf _ _ _ _ Hw Ef) as [_ [Hargs _]].
-    rewrite (call_vars_exact a _ Hargs Hcf).
-    destruct (ideal_vars (fm_args fm) a); [eauto | discriminate].
-  - simpl in Hg. rewrite g_shared_fix in Hg. apply andb_true_iff in Hg as [G1 G2].
-    simpl in Hcf. rewrite g_conform_fix in Hcf. apply andb_true_iff in Hcf as [C1 C2].
-    simpl in Hi. rewrite ideals_fix in Hi.
-    destruct (ideal ct e) as [ni0|] eqn:I1; [|discriminate].
-    destruct (ideals ct es) as [nis|] eqn:I2; [|destruct ni0; discriminate].
-    destruct (IHe _ G1 C1 eq_refl) as [n0 E0].
-    pose proof (eval_sim ct Hw _ _ _ _ G1 C1 E0 I1) as Hs.
-    destruct ni0 as [d subs' frs'|]; [|discriminate].
-    destruct (can_fields (d_kind d)) eqn:Ec; [|discriminate].
-    destruct (ideals_evals ct es H _ G2 C2 I2) as [ns E2].
-    inversion Hs as [k0 d0 Hnth Hv0 Hf0 | d0 s0 s0' f0 f0' Hf0 Hs0 Hfr0]; subst.
-    + exfalso. rewrite (store0_no_fields ct _ _ _ _ Hw Hnth) in Ec. discriminate.
-    + simpl. rewrite E0. cbv iota beta. rewrite Ec, evals_fix, E2. eauto.
-  - simpl in Hg. apply andb_true_iff in Hg as [G1 G2]. simpl in Hcf, Hi.
-    destruct (ideal ct e) as [ni0|] eqn:I1; [|discriminate].
-    destruct (IHe _ G2 Hcf eq_refl) as [n0 E0].
-    destruct (recv_fresh_inline _ _ _ _ _ G1 E0) as [d [subs [frs ->]]].
-    simpl. rewrite E0. eauto.
-  - simpl in Hg. rewrite g_shared_fix in Hg.
-    apply andb_true_iff in Hg as [G12 G3]. apply andb_true_iff in G12 as [G1 G2].
-    simpl in Hcf. rewrite g_conform_fix in Hcf. apply andb_true_iff in Hcf as [C1 C2].
-    simpl in Hi. rewrite ideals_fix in Hi.
-    destruct (ideal ct e) as [ni0|] eqn:I1; [|discriminate].
-    destruct (ideals ct es) as [nis|] eqn:I2; [|destruct ni0; discriminate].
-    destruct (IHe _ G2 C1 eq_refl) as [n0 E0].
-    pose proof (eval_sim ct Hw _ _ _ _ G2 C1 E0 I1) as Hs.
-    destruct (recv_fresh_inline _ _ _ _ _ G1 E0) as [d [subs [frs ->]]].
-    apply sim_N_inv in Hs as [subs' [frs' [-> _]]].
-    destruct (can_on (d_kind d)) eqn:Ec; [|discriminate].
-    destruct (ideals_evals ct es H _ G3 C2 I2) as [ns E2].
-    simpl. rewrite E0. cbv iota beta. rewrite Ec, evals_fix, E2. eauto.
-Qed.
-
-Lemma thread_cons {St X Y} (g : St -> X -> option (St * Y)) s x r :
-  thread g s (x :: r) = match g s x with
-                        | Some (s1, y) => match thread g s1 r with
-                                          | Some (s2, ys) => Some (s2, y :: ys)
-                                          | None => None end
-                        | None => None end.
-Proof. reflexivity. Qed.
-
-Section Total.
-Context {A : Type} (pj : var -> A) (st : store) (Hp : pristine st).
-
-Definition totalB (f : nat) : Prop := forall idx s n ni isl,
-  fst s = st -> sim st n ni -> node_sel pj f ni = Some isl ->
-  exists s' r, to_ast (S f) idx s n = Some (s', r).
-
-Lemma T_list f (IH : totalB f) idx : forall xs xis, Forall2 (sim st) xs xis ->
-  forall isls, omap (node_sel pj f) xis = Some isls ->
-  forall s, fst s = st -> exists s' rs, thread (to_ast (S f) idx) s xs = Some (s', rs) /\ fst s' = st.
-Proof.
-  induction 1 as [|x xi xs xis Hx Hxs IHl]; intros isls Hi s Hs; simpl in Hi.
-  { exists s, []. split; [reflexivity | exact Hs]. }
-  destruct (node_sel pj f xi) as [a|] eqn:N1; [|discriminate].
-  destruct (omap (node_sel pj f) xis) as [b|] eqn:N2; [|discriminate].
-  destruct (IH idx s x xi a Hs Hx N1) as [s1 [r E1]].
-  pose proof (to_ast_pristine st Hp _ _ _ _ _ _ Hs E1) as Hs1.
-  destruct (IHl _ eq_refl s1 Hs1) as [s2 [rs [E2 Hs2]]].
-  rewrite thread_cons, E1, E2. eauto.
-Qed.
-
-Lemma T_frags f (IH : totalB f) idx : forall frs frsi, Forall2 (fragrel st) frs frsi ->
-  forall isls,
-  omap (fun fr : string * list node => option_map (SI (fst fr)) (omap (node_sel pj f) (snd fr))) frsi = Some isls ->
-  forall s, fst s = st -> exists s' frs', thread (frag_step (S f) idx) s frs = Some (s', frs').
-Proof.
-  induction 1 as [|x xi xs xis [Hk Hx] Hxs IHl]; intros isls Hi s Hs; simpl in Hi.
-  { exists s, []. reflexivity. }
-  destruct (omap (node_sel pj f) (snd xi)) as [a|] eqn:N1; [|discriminate]. simpl in Hi.
-  destruct (omap (fun fr : string * list node =>
-                    option_map (SI (fst fr)) (omap (node_sel pj f) (snd fr))) xis) as [b|] eqn:N2; [|discriminate].
-  destruct (T_list f IH idx _ _ Hx _ N1 s Hs) as [s1 [cs [E1 Hs1]]].
-  destruct (IHl _ eq_refl s1 Hs1) as [s2 [frs2 E2]].
-  rewrite thread_cons. unfold frag_step at 1. rewrite E1, E2. eauto.
-Qed.
-
-Lemma totalB_all : forall f, totalB f.
-Proof.
-  induction f as [|f IH]; intros idx s n ni isl Hs Hsim Hn; [discriminate|].
-  destruct Hsim as [k d Hk Hv Hf | d subs subs' frs frs' Hf Hsubs Hfrs].
-  - simpl. rewrite Hs, Hk, Hv. simpl. eauto.
-  - simpl in Hn.
-    destruct (omap (node_sel pj f) subs') as [ss|] eqn:N1; [|discriminate].
-    destruct (omap (fun fr : string * list node =>
-                      option_map (SI (fst fr)) (omap (node_sel pj f) (snd fr))) frs') as [fs|] eqn:N2;
-      [|discriminate].
-    destruct (collect_total idx (d_vars d) (snd s)) as [[used1 fmt] Ec].
-    destruct (T_list f IH idx _ _ Hsubs _ N1 (fst s, used1) Hs) as [s2 [rs [E1 Hs2]]].
-    destruct (T_frags f IH idx _ _ Hfrs _ N2 s2 Hs2) as [s3 [frs2 E2]].
-    change (to_ast (S (S f)) idx s (N d subs frs)) with
-      (match collect idx (snd s) (d_vars d) with
-       | Some (used1, fmt) =>
-           match thread (to_ast (S f) idx) (fst s, used1) subs with
-           | Some (s2, rs) =>
-               match thread (frag_step (S f) idx) s2 frs with
-               | Some (s3, frs') =>
-                   Some (s3, (node_sl d subs frs fmt rs frs',
-                              N (set_fmt d fmt) (map (fun r => snd r) rs)
-                                (map (fun fr => (fst fr, map (fun r => snd r) (snd fr))) frs')))
-               | None => None end
-           | None => None end
-       | None => None end).
-    rewrite Ec, E1, E2. eauto.
-Qed.
-End Total.
-
-Lemma build_sels_from_total st (Hp : pristine st) f : forall ns nis, Forall2 (sim st) ns nis ->
-  forall isls, omap (node_sel tv f) nis = Some isls ->
-  forall idx s, fst s = st -> exists s' sns, build_sels_from (S f) idx s ns = Some (s', sns).
-Proof.
-  induction 1 as [|x xi xs xis Hx Hxs IHl]; intros isls Hi idx s Hs; simpl in Hi.
-  { exists s, []. reflexivity. }
-  destruct (node_sel tv f xi) as [a|] eqn:N1; [|discriminate].
-  destruct (omap (node_sel tv f) xis) as [b|] eqn:N2; [|discriminate].
-  destruct (totalB_all tv st Hp f idx s x xi a Hs Hx N1) as [s1 [r E1]].
-  pose proof (to_ast_pristine st Hp _ _ _ _ _ _ Hs E1) as Hs1.
-  destruct (IHl _ eq_refl (S idx) s1 Hs1) as [s2 [sns E2]].
-  exists s2, (r :: sns).
-  change (build_sels_from (S f) idx s (x :: xs)) with
-    (match to_ast (S f) idx s x with
-     | Some (s1, sn) => match build_sels_from (S f) (S idx) s1 xs with
-                        | Some (s2, sns) => Some (s2, sn :: sns)
-                        | None => None end
-     | None => None end).
-  rewrite E1, E2. reflexivity.
-Qed.
-
-(* No exception + the composed statement: an operation that denotes a request (its ideal exists and
-   fits in depth f), free of shared mutations, with well-typed values, ALWAYS builds, leaves the
-   import-time store untouched, and its request is the ideal one *)
-Theorem doc_valid_total ct f es idl :
-  wf_ct ct -> forallb g_shared es = true -> forallb (g_conform ct) es = true ->
-  ideal_sels ct f es = Some idl ->
-  exists rq, run_op ct (S f) (store0 ct) es = Some (store0 ct, rq) /\
-    resolves (look_req rq) (r_sels rq) = Some idl /\
-    NoDup (keys (r_vardefs rq)) /\
-    keys (r_vardefs rq) = flat_map sel_vars (r_sels rq) /\
-    keys (r_values rq) = keys (r_vardefs rq).
-Proof.
-  intros Hw Hg Hcf Hi. pose proof Hi as Hi0. unfold ideal_sels in Hi.
-  destruct (ideals ct es) as [nis|] eqn:Ei; [|discriminate].
-  assert (Hall : Forall (fun e => forall ni, g_shared e = true -> g_conform ct e = true ->
-                   ideal ct e = Some ni -> exists n, eval ct e (store0 ct) = Some (store0 ct, n)) es).
-  { apply Forall_forall. intros e _ ni. apply ideal_eval. exact Hw. }
-  destruct (ideals_evals ct es Hall _ Hg Hcf Ei) as [ns Ee].
-  pose proof (evals_sim_all ct Hw _ _ _ _ Hg Hcf Ee Ei) as Hsim.
-  destruct (build_sels_from_total _ (store0_pristine ct) f _ _ Hsim _ Hi 0 (store0 ct, []) eq_refl)
-    as [[st1 u1] [sns Eb]].
-  assert (Er : exists st' rq, run_op ct (S f) (store0 ct) es = Some (st', rq)).
-  { unfold run_op. rewrite Ee. unfold build_request, build_sels. rewrite Eb. eauto. }
-  destruct Er as [st' [rq Er]].
-  destruct (doc_valid_store0 _ _ _ _ _ _ _ Hw Hg Hcf Er Hi0) as [H1 [H2 [H3 [H4 ->]]]].
-  exists rq. auto.
-Qed.
